@@ -397,6 +397,7 @@ def main(rep, tier, seed):
     corpus = load_corpus()
     coq_items = corpus + gen_coq_cases(rng.fork("coq"), tier)
     outl, bad, errors = F.correspond(binpath, coq_items, HEADER, CHECK, "c18")
+    rep.extra["no_std_build"] = F.nostd_phase(rep, "c18", coq_items, outl) if not errors and len(outl) == len(coq_items) else {}
     for name, msg in errors:
         rep.violation("correspondence_error_" + name.replace("/", "_"),
                       {"kind": "correspondence could not be evaluated", "where": name, "log": msg}, no_input=True)
